@@ -157,8 +157,13 @@ def evaluate(ctx, binp, cases, tag):
     return by_id, out["M"], out["V"], sum(out["NT"]), k
 
 
+from wiring import Profile
+WPROFILES = [Profile(n_procs=(2, 4), p_wrap=0.4, p_cycle_bias=0.85, fields=(1, 3), p_runner=0.5, p_lazy=0.2, n_bare=(0, 0)),
+             Profile(n_procs=(1, 3), p_wrap=0.1, p_runner=0.8, p_cycle_bias=0.5, p_fault=0.2, n_bare=(0, 0))]
+
+
 def run(ctx):
-    static_ok = vlib.static_obligations(ctx)
+    static_ok = vlib.static_obligations(ctx, extra_targets=["Corr/WiringFacts.vo"])
     binp = vlib.go_build(ctx, "./cmd/c12")
     nd, nr, nh = (3000, 150, 600) if ctx.quick() else (60000, 2000, 12000)
     cases = [dict(c, id=i) for i, c in enumerate(CORPUS)]
@@ -169,8 +174,37 @@ def run(ctx):
     else:
         cases += gen_cases(ctx, nd, nr, start_id=len(cases))
         cases += [gen_hist(ctx.rng, len(cases) + i) for i in range(nh)]
-    by_id, M, V, nt, nev = evaluate(ctx, binp, cases, "main")
+    wonly = None
+    if ctx.replay and cases and cases[0].get("kind") == "wiring":
+        wonly, cases = cases[0]["scenario"], []
+    by_id, M, V, nt, nev = evaluate(ctx, binp, cases, "main") if cases else ({}, [], [], 0, 0)
     ctx.log("cases=%d evaluations=%d nontrivial=%d mismatches=%d violations=%d" % (len(cases), nev, nt, len(M), len(V)))
+    # the callbacks are actually invoked in the sorted sequence: real starts of generated wiring scenarios with several
+    # user post-processors (observing, substituting; cycles, so that early-reference callbacks occur) and several
+    # runners, compared with the model and judged on the implementation's own event log (Corr/Check_C12w.v)
+    import wiring
+    WBASE = 10 ** 7
+    if wonly is not None:
+        wscns = [wonly]
+    elif ctx.replay:
+        wscns = []
+    else:
+        nw = 160 if ctx.quick() else 1600
+        wscns = [wiring.gen_scenario(ctx.rng, i, WPROFILES[i % len(WPROFILES)]) for i in range(nw)]
+    wb, wnt = {}, 0
+    if wscns:
+        for i, s in enumerate(wscns):
+            s["id"] = i
+        wb, wout, _ = wiring.evaluate(ctx, wscns, "w", "Corr.Check_C12w",
+                                      {"M": "mismatches", "V": "violations", "NT": "count_nontrivial"})
+        wnt = sum(wout["NT"])
+        for i, e in wb.items():
+            by_id[WBASE + i] = {"case": {"kind": "wiring", "scenario": e["scenario"], "parts": e["scenario"]["comps"]},
+                                "observation": e["observation"], "names": e["names"]}
+        M += [WBASE + i for i in wout["M"]]
+        V += [WBASE + i for i in wout["V"]]
+        ctx.log("callback order in real starts: scenarios=%d nontrivial=%d mismatches=%d violations=%d" % (
+            len(wb), wnt, len(wout["M"]), len(wout["V"])))
     distinct = len({vlib.stable_hash([c["kind"], [(p["cls"], p["ord"]) for p in c["parts"]], c.get("steps"), c.get("via")])
                     for c in cases})
     hs = {"histories": 0, "initializes": 0, "with_two_or_more_Initializes": 0, "last_Initialize_inside_App.Run": 0,
@@ -198,6 +232,8 @@ def run(ctx):
 
     def shrink(c):
         cur = c
+        if cur["case"]["kind"] == "wiring":
+            return cur
         for _round in range(15):
             parts = cur["case"]["parts"]
             cands = [dict(cur["case"], parts=parts[:i] + parts[i + 1:]) for i in range(len(parts))]
@@ -227,7 +263,8 @@ def run(ctx):
 
     samples = [by_id[i] for i in sorted(by_id)[:2]] + [by_id[i] for i in sorted(by_id)[-2:]]
     cov = {
-        "evaluations": nev,
+        "evaluations": nev + len(wb),
+        "callback_order_in_real_starts": {"scenarios": len(wb), "with_two_user_processors_or_two_runners": wnt},
         "distinct_nontrivial": min(nt, distinct),
         "rule": "generated participant lists (classes P/O/U, Order pools with ties, negatives, int64 extremes; sizes 0-120) "
                 "sorted by the real SortOrderedComponents, plus invocation logs of processors/runners/loaders in real "
